@@ -15,14 +15,14 @@ partial def outside (s : Stmt) (parentKw : String) : Option String :=
   else if (s.kw.splitOn ":").length == 2 && (s.kw.splitOn "posix-pattern").length > 1 then some "posix-pattern"
   else s.subs.findSome? fun c => outside c s.kw
 
-def loadFiles (files : List SrcFile) : Registry :=
-  files.foldl (fun reg f =>
-    -- Modules.Parse stops at the first statement that cannot be added
-    (f.stmts.foldl (fun (acc : Registry × Bool) s =>
-      if acc.2 then acc else
-      match acc.1.add s with
-      | .ok r => (r, false)
-      | .error _ => (acc.1, true)) (reg, false)).1) {}
+/-- `Modules.Parse` (after the repair it is atomic: either every top-level statement of the text
+is added or none). -/
+def loadFile (reg : Registry) (f : SrcFile) : Registry :=
+  match f.stmts.foldlM (fun r s => r.add s) reg with
+  | .ok r => r
+  | .error _ => reg
+
+def loadFiles (files : List SrcFile) : Registry := files.foldl loadFile {}
 
 def plugLite : Plug := { tres := typesLite, identityErrs := fun _ => [], typedefErrs := fun _ => [] }
 
